@@ -67,30 +67,37 @@ Definition keyword_type (l : list N) : option N :=
   | None => lookup keyword_table (map toLower l)
   end.
 
-(* the class of a token, by type *)
+(* the lexical rules: which (type, literal) pairs are tokens. `atend` = the literal reaches the end of
+   the source (only an unterminated text/character literal, comment or alias parameter may rely on it) *)
+Inductive class_ok (m : mode) (atend : Prop) : N -> list N -> Prop :=
+| K_eof : class_ok m atend tt_EOF []
+| K_int l : digits l -> class_ok m atend tt_INT l
+| K_float a b : digits a -> digits b -> class_ok m atend tt_FLOAT (a ++ 44 :: b)
+| K_ident l : word l -> keyword_type l = None -> class_ok m atend tt_IDENTIFIER l
+| K_keyword l v : word l -> keyword_type l = Some v -> class_ok m atend v l
+| K_string l : quoted_lit 34 l -> class_ok m atend tt_STRING l
+| K_char l : quoted_lit 39 l -> class_ok m atend tt_CHAR l
+| K_illegal q b : q = 34 \/ q = 39 -> qopen q b -> atend -> class_ok m atend tt_ILLEGAL (q :: b)
+| K_comment b d : depth_after 1 b = Some d -> d = 0 \/ atend -> class_ok m atend tt_COMMENT (91 :: b)
+| K_apar b : m = Alias -> ~ In 62 b -> class_ok m atend tt_ALIAS_PARAMETER (60 :: b ++ [62])
+| K_apar_open b : m = Alias -> ~ In 62 b -> atend -> class_ok m atend tt_ALIAS_PARAMETER (60 :: b)
+| K_negate : class_ok m atend tt_NEGATE [45]
+| K_dot : class_ok m atend tt_DOT [46]
+| K_elipsis : class_ok m atend tt_ELIPSIS [46; 46; 46]
+| K_comma : class_ok m atend tt_COMMA [44]
+| K_colon : class_ok m atend tt_COLON [58]
+| K_lparen : class_ok m atend tt_LPAREN [40]
+| K_rparen : class_ok m atend tt_RPAREN [41]
+| K_symbol c : isAlpha c = false -> isDigit c = false -> ~ blank c ->
+               ~ In c [45; 46; 44; 58; 40; 41; 34; 39; 91] -> (c = 60 -> m = Normal) ->
+               class_ok m atend tt_SYMBOL [c].
+
 Definition kind_ok (m : mode) (src : list N) (t : token) : Prop :=
-  let l := sub src (tstart t) (tend t) in
-  (ty t = tt_EOF /\ l = []) \/
-  (ty t = tt_INT /\ digits l) \/
-  (ty t = tt_FLOAT /\ exists a b, l = a ++ 44 :: b /\ digits a /\ digits b) \/
-  (ty t = tt_IDENTIFIER /\ word l /\ keyword_type l = None) \/
-  (word l /\ keyword_type l = Some (ty t)) \/
-  (ty t = tt_STRING /\ quoted_lit 34 l) \/
-  (ty t = tt_CHAR /\ quoted_lit 39 l) \/
-  (ty t = tt_ILLEGAL /\ tend t = len src /\ exists q b, (q = 34 \/ q = 39) /\ l = q :: b /\ qopen q b) \/
-  (ty t = tt_COMMENT /\ exists b, l = 91 :: b /\
-     (depth_after 1 b = Some 0 \/ (tend t = len src /\ exists d, depth_after 1 b = Some d /\ 0 < d))) \/
-  (ty t = tt_ALIAS_PARAMETER /\ m = Alias /\ exists b, l = 60 :: b /\
-     ((exists b', b = b' ++ [62] /\ ~ In 62 b') \/ (tend t = len src /\ ~ In 62 b))) \/
-  (ty t = tt_NEGATE /\ l = [45]) \/ (ty t = tt_DOT /\ l = [46]) \/ (ty t = tt_ELIPSIS /\ l = [46; 46; 46]) \/
-  (ty t = tt_COMMA /\ l = [44]) \/ (ty t = tt_COLON /\ l = [58]) \/
-  (ty t = tt_LPAREN /\ l = [40]) \/ (ty t = tt_RPAREN /\ l = [41]) \/
-  (ty t = tt_SYMBOL /\ exists c, l = [c] /\ isAlpha c = false /\ isDigit c = false /\ ~ blank c /\
-     ~ In c [45; 46; 44; 58; 40; 41; 34; 39; 91] /\ (c = 60 -> m = Normal)).
+  class_ok m (tend t = len src) (ty t) (sub src (tstart t) (tend t)).
 
 (* ---- indentation ---- *)
-(* depth of the blank run at the start of a line: tabs + completed groups of four consecutive spaces;
-   `run` = spaces seen since the last group / non-space *)
+(* depth of a run of blanks at the start of a line: tabs + completed groups of four consecutive
+   spaces; `run` = spaces seen since the last completed group / tab / carriage return *)
 Fixpoint indent_run (run : N) (l : list N) : N :=
   match l with
   | c :: r =>
@@ -100,10 +107,27 @@ Fixpoint indent_run (run : N) (l : list N) : N :=
     else 0
   | [] => 0
   end.
-(* offset of the start of the line that contains offset `off` (the character after the last LF before off) *)
-Fixpoint line_start_aux (l : list N) (pos ls : N) (n : nat) : N :=
-  match n, l with
-  | S n', c :: r => line_start_aux r (pos + 1) (if c =? 10 then pos + 1 else ls) n'
-  | _, _ => ls
+Definition has_lf (l : list N) : bool := existsb (N.eqb 10) l.
+(* what follows the last line feed of l (l itself if it has none) *)
+Fixpoint after_last_lf (l : list N) : list N :=
+  match l with
+  | [] => []
+  | c :: r => if has_lf r then after_last_lf r else if c =? 10 then r else c :: r
   end.
-Definition line_start (src : list N) (off : N) : N := line_start_aux src 0 0 (N.to_nat off).
+
+(* Indent of every token, along the stream: a token that spans a line break has depth 0; otherwise,
+   if a line break separates it from the previous token, the depth of the blanks between that line
+   break and the token; otherwise the depth of the previous token (before the first token: the base
+   depth i0 of ScanAlias plus the depth of the leading blanks).
+   prev_end = end of the previous token, d = its depth, first = no token yet. *)
+Fixpoint indents (src : list N) (first : bool) (prev_end d : N) (ts : list token) : Prop :=
+  match ts with
+  | [] => True
+  | t :: r =>
+    let gap := sub src prev_end (tstart t) in
+    let body := sub src (tstart t) (tend t) in
+    let d1 := if has_lf gap then indent_run 0 (after_last_lf gap)
+              else if first then d + indent_run 0 gap else d in
+    let d2 := if has_lf body then 0 else d1 in
+    tindent t = d2 /\ indents src false (tend t) d2 r
+  end.
